@@ -25,7 +25,7 @@ SIDES = [2, 3, 4, 5, 6, 7, 8, 9, 10, 11, 12, 13, 14, 16, 17, 18, 20, 22, 26, 30,
 def cells(tier, seed, salt=''):
     rnd = core.rng_for(seed, PROP, tier, salt)
     out = []
-    reps = 14 if tier == 'quick' else 300
+    reps = 14 if tier == 'quick' else 500
     for b in refs.BIORTS:
         for q in refs.QSHIFTS:
             for _ in range(reps):
